@@ -544,6 +544,12 @@ def run(R):
             rcv, meth = q.attr_call(c)
             if nm in DIAG_CALLEES or nm in PURE_CALLS or meth in PURE_METHODS or meth in DIAG_METHODS or nm in ("str", "isinstance", "core_inspection.get_function_call_str"):
                 continue
+            if isinstance(rcv, ast.Name) and meth in ("append", "extend", "add", "update", "insert", "setdefault"):
+                # building the record in a local container that was created here
+                vals_ = common.assigned_values(f.node, rcv.id)
+                if vals_ and all(k_ == "expr" and (isinstance(v_, (ast.List, ast.Dict, ast.Set)) or (isinstance(v_, ast.Call) and q.call_name(v_) in ("list", "dict", "set")
+                                                                                              and not v_.args)) for k_, v_ in vals_):
+                    continue
             bad.append(q.src(c)[:40])
         R.check(not bad, "C20.DIAG-ONLY", mq, R.site(f), "%s only reads state and writes diagnostic fields" % f.name,
                 "the diagnostic helper %s has effects beyond diagnostics: %s" % (mq, ", ".join(bad)))
